@@ -724,7 +724,15 @@ func applyJSONFault(doc []byte, a, b int) ([]byte, bool) {
 
 // neighbourString returns a string that differs slightly from s.
 func neighbourString(s string, variant int) string {
-	switch abs(variant) % 10 {
+	switch abs(variant) % 14 {
+	case 10:
+		return s + "#"
+	case 11:
+		return s + "?"
+	case 12:
+		return s + "//"
+	case 13:
+		return "/" + s
 	case 0:
 		return s + "/"
 	case 1:
@@ -845,4 +853,58 @@ func applyProfileFault(msg []byte, variant int, isJSON bool) ([]byte, bool) {
 		}
 		return msg, false
 	}
+}
+
+// applyArrayFlood replaces the a-th array of a CBOR item / JSON document by an
+// array of n unusable entries (nulls, empty maps, empty strings).
+func applyArrayFlood(msg []byte, a, n, variant int, isJSON bool) ([]byte, bool) {
+	if n <= 0 {
+		return msg, false
+	}
+	if isJSON {
+		root, ok := parseJSONTree(msg)
+		if !ok {
+			return msg, false
+		}
+		var nodes, arrays []*jnode
+		root.all(&nodes)
+		for _, x := range nodes {
+			if x.kind == 'a' {
+				arrays = append(arrays, x)
+			}
+		}
+		if len(arrays) == 0 {
+			return msg, false
+		}
+		el := []string{"null", "{}", `""`, "[]"}[abs(variant)%4]
+		t := arrays[abs(a)%len(arrays)]
+		*t = jnode{kind: 'v', raw: "[" + strings.TrimSuffix(strings.Repeat(el+",", n), ",") + "]"}
+		var sb bytes.Buffer
+		root.write(&sb)
+		return sb.Bytes(), true
+	}
+	var hs []cborHead
+	if _, err := walkItem(msg, 0, 0, &hs); err != nil {
+		return msg, false
+	}
+	var arrays []cborHead
+	for _, h := range hs {
+		if h.Major == 4 && h.Info != 31 {
+			arrays = append(arrays, h)
+		}
+	}
+	if len(arrays) == 0 {
+		return msg, false
+	}
+	h := arrays[abs(a)%len(arrays)]
+	end, err := walkItem(msg, h.Off, 0, nil)
+	if err != nil {
+		return msg, false
+	}
+	el := []byte{0xf6, 0xa0, 0x40, 0x80}[abs(variant)%4]
+	r := append([]byte{}, msg[:h.Off]...)
+	r = append(r, encodeHead(4, uint64(n))...)
+	r = append(r, bytes.Repeat([]byte{el}, n)...)
+	r = append(r, msg[end:]...)
+	return r, true
 }
